@@ -40,6 +40,9 @@ type Expr struct {
 	Lo     *Expr  `json:"lo"`
 	Key    *Expr  `json:"key"`
 	Val    *Expr  `json:"val"`
+	Param  string `json:"param"`
+	Ret    *Expr  `json:"ret"`
+	Arg    *Expr  `json:"arg"`
 	Args   []Expr `json:"args"`
 	Spread bool   `json:"spread"`
 }
@@ -88,13 +91,13 @@ type Param struct {
 }
 
 type Top struct {
-	K      string  `json:"k"`
-	Name   string  `json:"name"`
-	T      string  `json:"t"`
-	E      *Expr   `json:"e"`
-	Params []Param `json:"params"`
+	K      string   `json:"k"`
+	Name   string   `json:"name"`
+	T      string   `json:"t"`
+	E      *Expr    `json:"e"`
+	Params []Param  `json:"params"`
 	Res    []string `json:"res"`
-	Body   []Stmt  `json:"body"`
+	Body   []Stmt   `json:"body"`
 }
 
 type Import struct {
@@ -187,6 +190,8 @@ func expr(e *Expr) string {
 		return "[]int{" + exprs(e.Args) + "}"
 	case "maplit":
 		return "map[string]int{" + expr(e.Key) + ": " + expr(e.Val) + "}"
+	case "flcall":
+		return "func(" + e.Param + " int) int { return " + expr(e.Ret) + " }(" + expr(e.Arg) + ")"
 	}
 	panic("driver: unknown expression kind " + e.K)
 }
@@ -404,6 +409,9 @@ func source(p *Prog) (string, string) {
 			v.WriteString("}\n")
 		case "var":
 			v.WriteString("var " + t.Name + " " + t.T + "\n")
+		case "varinit":
+			s := Stmt{K: "var", Names: []string{t.Name}, T: t.T, Es: []Expr{*t.E}}
+			v.WriteString(simple(&s) + "\n")
 		case "type":
 			v.WriteString("type " + t.Name + " int\n")
 		case "const":
